@@ -9,14 +9,14 @@ from .common import run_control, generic_rules
 
 def analyse(ctx: CheckContext, p: Program):
     r = Resolver(p)
-    generic_rules(ctx, p, r, "C02")
+    ctx.guard(generic_rules, ctx, p, r, "C02")
     fs = [f for f in p.all_funcs if f.module.name in ("OpenPinch.analysis.utility_targeting",)]
-    bk.check_wrap(ctx, p, r, fs)
-    bk.check_gen_use_matching(ctx, p, r)
-    bk.check_pair_source(ctx, p, r, [f for f in p.all_funcs if f.module.name.startswith("OpenPinch.analysis.")])
-    bk.check_zone_sum(ctx, p, r)
-    bk.check_default_filter(ctx, p, r)
-    bk.check_name_match(ctx, p, r, [f for f in p.all_funcs if f.module.name in ("OpenPinch.analysis.indirect_integration_entry", "OpenPinch.analysis.direct_integration_entry")])
+    ctx.guard(bk.check_wrap, ctx, p, r, fs)
+    ctx.guard(bk.check_gen_use_matching, ctx, p, r)
+    ctx.guard(bk.check_pair_source, ctx, p, r, [f for f in p.all_funcs if f.module.name.startswith("OpenPinch.analysis.")])
+    ctx.guard(bk.check_zone_sum, ctx, p, r)
+    ctx.guard(bk.check_default_filter, ctx, p, r)
+    ctx.guard(bk.check_name_match, ctx, p, r, [f for f in p.all_funcs if f.module.name in ("OpenPinch.analysis.indirect_integration_entry", "OpenPinch.analysis.direct_integration_entry")])
 
 
 def run(ctx: CheckContext):
